@@ -43,18 +43,27 @@ Proof.
   lia.
 Qed.
 
+Lemma index_big : forall d m, m > max_i64 -> mid_to_index d m = bm_size (d_mask d) - 1.
+Proof. intros d m H. unfold mid_to_index. destruct (Z.gtb_spec m max_i64); [reflexivity|lia]. Qed.
+
+Lemma index_small : forall d m, m <= max_i64 -> mid_to_index d m = mid_to_index_v0 d m.
+Proof. intros d m H. unfold mid_to_index. destruct (Z.gtb_spec m max_i64); [lia|reflexivity]. Qed.
+
 (* second half: monotone on ALL MIDs (since 6d376ea a MID beyond int64 maps to the overflow bucket) *)
 Lemma index_monotone : forall d m1 m2, dist_wf d -> 0 <= m1 -> m1 <= m2 ->
   mid_to_index d m1 <= mid_to_index d m2.
 Proof.
   intros d m1 m2 Hwf H0 H12.
   pose proof (index_in_range d m1 Hwf) as R1. pose proof (index_in_range d m2 Hwf) as R2.
+  destruct (Z_le_gt_dec m2 max_i64) as [G2|G2].
+  2:{ rewrite (index_big d m2 G2). lia. }
+  assert (G1 : m1 <= max_i64) by lia.
+  rewrite (index_small d m1 G1) in *. rewrite (index_small d m2 G2) in *.
+  assert (S1 : 0 <= m1 < two63) by (unfold max_i64 in *; lia).
+  assert (S2 : 0 <= m2 < two63) by (unfold max_i64 in *; lia).
+  clear G1 G2.
   destruct Hwf as [Ho Hb Hs _ _].
-  unfold mid_to_index in *. unfold max_i64 in *.
-  destruct (Z.gtb_spec m2 (two63 - 1)) as [G2|G2].
-  { destruct (Z.gtb_spec m1 (two63 - 1)); lia. }
-  destruct (Z.gtb_spec m1 (two63 - 1)) as [G1|G1]; [lia|].
-  rewrite !to_i64_small in * by lia.
+  unfold mid_to_index_v0 in *. rewrite !to_i64_small in * by assumption.
   destruct (Z.ltb_spec m1 (d_from d)); [lia|].
   destruct (Z.ltb_spec m2 (d_from d)); [lia|].
   destruct (Z.gtb_spec m1 (d_to d)).
